@@ -5,6 +5,7 @@ model built on them (`Wz.Model.Memory`).
 -/
 import Wz.Model.Memory
 import Wz.Gen.FrontendReload
+import Wz.Gen.Shapes
 
 namespace Wz.C14
 open Wz.Gen.Memory Wz.Model.Memory
@@ -333,5 +334,12 @@ theorem compiler_rereads_length_after_call :
     Wz.Gen.FrontendReload.lenCacheGuard = "!forceReload && !c.memoryShared" ∧
     Wz.Gen.FrontendReload.reloadAfterCallCallers =
       ["lowerCall", "lowerCallIndirect", "lowerTailCallReturnCall", "lowerTailCallReturnCallIndirect"] := by decide
+
+
+/-- **Regenerated obligation** (wasm/memory.go): the view returned by `Read` is a three-index slice, so its
+capacity equals its length and nothing beyond `offset+byteCount` is reachable through it, whatever spare capacity
+the buffer has (capacity-from-max, shared memories). -/
+theorem read_view_capacity_is_its_length :
+    Wz.Gen.Shapes.get "c14.read_view" = some "m.Buffer[offset:][:byteCount:byteCount]" := by decide
 
 end Wz.C14
